@@ -112,7 +112,12 @@ type Sim struct {
 	LoopOverrun string                                  // set when a task exhausted its loop budget (where)
 	Zone        *time.Location                          // the machine's local time zone (nil: UTC); what time.Now() carries
 	StartFailFn func(parent *Proc, cmd *exec.Cmd) error // non-nil result: the process start fails with it
-	AutoAdvance bool                                    // when nothing is runnable, jump the clock to the next timer
+	// RunFn, when set, plays the part of an external command that is run to
+	// completion ((*exec.Cmd).Run): it may write the command's output to
+	// cmd.Stdout/cmd.Stderr and returns whether it handled the command and the
+	// command's result. Unhandled commands go through the process table.
+	RunFn       func(cmd *exec.Cmd) (handled bool, err error)
+	AutoAdvance bool // when nothing is runnable, jump the clock to the next timer
 
 	muOwner map[any]*Task
 	rwRead  map[any]int
